@@ -172,3 +172,25 @@ class Membership:
 
 
 TARGETS = {"codebasin:CodeBase.__contains__": Membership()}
+
+
+# ---- recorded findings in the third-party matcher (pathspec, A6), reported by defect hunting; oracle: git check-ignore ----
+from native import recorded as _R      # noqa: E402
+
+
+def _members(pattern, files):
+    with _R.tree({f: "int x;\n" for f in files}) as root:
+        cb = CodeBase(root, exclude_patterns=[pattern])
+        got = {f: (os.path.join(root, f) in cb) for f in files}
+        ign = git_ignored(root, [pattern], list(files))
+        want = {f: f not in ign for f in files}
+    return None if got == want else (f"{want} (git check-ignore --no-index)", got)
+
+
+TARGETS["codebasin:CodeBase.__contains__#recorded-findings"] = _R.Exhibits([
+    ("membership:pathspec:leading-blank-of-a-pattern", "pattern ' gen.c'", lambda: _members(" gen.c", ["gen.c", " gen.c"])),
+    ("membership:pathspec:bracket-expression-matches-the-separator", "pattern '*[!_]test.cpp'",
+     lambda: _members("*[!_]test.cpp", ["unit/test.cpp", "mytest.cpp", "unit/x_test.cpp"])),
+    ("membership:pathspec:directory-pattern-ending-in-double-star", "pattern 'sub/**/'",
+     lambda: _members("sub/**/", ["sub/a.c", "sub/deep/b.c", "top.c"])),
+])
